@@ -374,7 +374,7 @@ impl GroupEncoding for Curve25519 {
 
     fn from_bytes(bytes: &Self::Repr) -> CtOption<Self> {
         let compressed = CompressedEdwardsY(*bytes);
-        match compressed.decompress() {
+        match compressed.decompress().filter(|p| p.compress().to_bytes() == *bytes) {
             Some(point) => CtOption::new(Curve25519(point), Choice::from(1u8)),
             None => CtOption::new(Curve25519(EdwardsPoint::identity()), Choice::from(0u8)),
         }
